@@ -44,6 +44,31 @@ def _bytes_files(tf):
     return {'pickle': (tf.write(pickle.dumps(a), '.pkl', binary=True), tf.write(pickle.dumps(b), '.pkl', binary=True))}
 
 
+def _long_files(tf):
+    """Fifth pair per type: strings longer than a terminal line, strings with embedded line breaks and unusual line
+    separators - values whose rendering is written in pieces spanning several lines."""
+    import yaml
+    long1 = ' '.join(['lorem ipsum dolor sit amet consectetur adipiscing'] * 5)
+    long2 = long1.replace('dolor', 'color', 1)
+    a = {"title": "short", "description": long1, "notes": "line one\nline two\n\nline four", "sep": "a\u2028b\x0cc\x0bd\re", "n": 1, "items": [1, 2, 3]}
+    b = {"title": "short", "description": long1, "notes": "line one\nline 2\n\nline four", "sep": "a\u2028b\x0cc\x0bd\rf", "n": 2, "items": [1, 3, 4],
+         "extra": long2}
+    pa = {k: v for k, v in a.items() if k != 'sep'}
+    pb = {k: v for k, v in b.items() if k != 'sep'}
+    out = {}
+    out['json'] = (tf.write(json.dumps(a), '.json'), tf.write(json.dumps(b), '.json'))
+    out['json5'] = (tf.write(json.dumps(a), '.json5'), tf.write(json.dumps(b), '.json5'))
+    out['yaml'] = (tf.write(yaml.safe_dump(a), '.yml'), tf.write(yaml.safe_dump(b), '.yml'))
+    out['csv'] = (tf.write(f'h1,h2\n"{long1}","two\nlines"\n', '.csv'), tf.write(f'h1,h2\n"{long2}","two\nlines\u2028x"\n1,2\n', '.csv'))
+    out['xml'] = (tf.write(f'<r a="{long1}"><b>{long1}\nsecond line\u2028third</b><c/></r>', '.xml'),
+                  tf.write(f'<r a="{long2}"><b>{long2}\nsecond line\u2028third</b><d/></r>', '.xml'))
+    out['html'] = (tf.write(f'<html><body><p>{long1}\nsecond line</p></body></html>', '.html'),
+                   tf.write(f'<html><body><p>{long2}\nsecond line</p><br/></body></html>', '.html'))
+    out['plist'] = (tf.write(plistlib.dumps(pa), '.plist', binary=True), tf.write(plistlib.dumps(pb), '.plist', binary=True))
+    out['pickle'] = (tf.write(pickle.dumps(a), '.pkl', binary=True), tf.write(pickle.dumps(b), '.pkl', binary=True))
+    return out
+
+
 def _rich_files(tf):
     """Second document pair per type: every scalar kind the type can express, empty and nested containers, non-ASCII
     text and - where the type allows them (YAML, pickle) - mapping keys that are not strings."""
@@ -73,7 +98,7 @@ def _rich_files(tf):
 def _files(tf, variant=0):
     import yaml
     if variant:
-        return {1: _rich_files, 2: _null_files, 3: _bytes_files}[variant](tf)
+        return {1: _rich_files, 2: _null_files, 3: _bytes_files, 4: _long_files}[variant](tf)
     a, b = {"a": [1, 2, {"b": "x"}], "c": "str"}, {"a": [1, 3, {"b": "y"}], "d": "str"}
     out = {}
     out['json'] = (tf.write(json.dumps(a), '.json'), tf.write(json.dumps(b), '.json'))
@@ -129,6 +154,39 @@ def _job(job):
     return fails
 
 
+def _sub_job(job):
+    """The real command in a subprocess with the status / progress output left on (neither --no-status nor --quiet): the
+    rendering then passes through the status writer.  Configurations that already fail in-process are reported by _job."""
+    import os
+    import subprocess
+    import sys
+    intype, fmt, mode, style, cond, differ, variant, repo = job
+    if _job((intype, fmt, mode, style, cond, differ, variant)):
+        return []
+    tf = gt.TempFiles()
+    fails = []
+    try:
+        pa, pb = _files(tf, variant)[intype]
+        env = dict(os.environ)
+        env['PYTHONPATH'] = repo + os.pathsep + env.get('PYTHONPATH', '')
+        args = [pa, pb if differ else pa, f'--from-{intype}', f'--to-{intype}', '--format', fmt] + mode + style + cond
+        p = subprocess.run([sys.executable, '-m', 'graphtage'] + args, env=env, capture_output=True, text=True, timeout=100)
+        if p.returncode not in (0, 1) or 'Traceback (most recent call last)' in p.stderr:
+            last = [ln for ln in p.stderr.strip().splitlines() if ln.strip()]
+            fails.append({'what': f"`graphtage {' '.join(args[2:])}` on {intype} input with the status output on: exit status {p.returncode}; "
+                                  f"{last[-1][:200] if last else '<no stderr>'} (the same configuration with --no-status completes)",
+                          'class': f'c13-status-on-internal-error:{intype}->{fmt}'})
+        elif (p.returncode == 1) != differ and not mode:
+            fails.append({'what': f"exit status {p.returncode} with the status output on but documents {'differ' if differ else 'are equal'} ({intype} -> {fmt})",
+                          'class': f'c13-wrong-status:{intype}->{fmt}'})
+    finally:
+        tf.cleanup()
+    for f in fails:
+        f['input'] = {'job': list(job[:7])}
+        f['replay'] = {'kind': 'subprocess', 'job': list(job[:7])}
+    return fails
+
+
 def witnesses(func_result, ob, repo_root, tier):
     fn = func_result['function']
     cands = []
@@ -151,6 +209,9 @@ def replay(entry, repo_root):
         j = r['job']
         f = _job(tuple(j))
         return f[0]['what'] if f else None
+    if r.get('kind') == 'subprocess':
+        f = _sub_job(tuple(r['job']) + (repo_root,))
+        return f[0]['what'] if f else None
     return None
 
 
@@ -163,13 +224,22 @@ def bounded(tier, seed, repo_root):
             for st in (['--no-color'], ['--color', '--html'])]
     rich += [(i, f, m, ['--no-color'], [], d, 2) for i in ('json', 'json5', 'yaml', 'pickle') for f in TYPES for m in modes for d in (True, False)]
     rich += [('pickle', f, m, ['--no-color'], [], d, 3) for f in TYPES for m in modes for d in (True, False)]
+    rich += [(i, f, m, st, [], d, 4) for i in TYPES for f in TYPES for m in modes for d in (True, False)
+             for st in (['--no-color'], ['--color'])]
     jobs += rich
     fails = [f for fs in pmap(_job, jobs, repo_root, chunksize=8, job_timeout=60, on_timeout=timeout_failure('C13')) for f in fs]
+    sub = [(i, f, m, ['--no-color'], [], d, 4, repo_root) for i in TYPES for f in TYPES for m in modes for d in (True, False)]
+    sub += [(i, f, [], st, c, True, 0, repo_root) for i in TYPES for f in TYPES for st, c in ((['--no-color'], ['-j']), (['--color'], []))]
+    if tier != 'quick':
+        sub += [(i, f, m, st, [], d, v, repo_root) for i in TYPES for f in TYPES for m in modes for d in (True, False) for v in (0, 1)
+                for st in (['--no-color'], ['--html'])]
+    fails += [f for fs in pmap(_sub_job, sub, repo_root, chunksize=2, job_timeout=150, on_timeout=timeout_failure('C13')) for f in fs]
     return [{
         'name': 'C13.configuration-matrix', 'bound': f"{len(TYPES)} input types x {len(TYPES)} output formats x 3 modes x 4 styles x 2 "
         f"(condensed) x 2 (equal / different documents) = {len(jobs) - len(rich)} runs of main() on one plain document pair per type, plus {len(rich)} runs (types x formats x modes x equal/different) "
-        f"on a second pair per type with every scalar kind, empty/nested containers, non-ASCII text and non-string mapping keys (YAML, pickle), a third pair containing null (json, json5, yaml, pickle) and a fourth with bytes values (pickle)",
-        'evaluations': len(jobs), 'distinct_nontrivial': len(jobs), 'exhaustive': True,
+        f"on a second pair per type with every scalar kind, empty/nested containers, non-ASCII text and non-string mapping keys (YAML, pickle), a third pair containing null (json, json5, yaml, pickle), a fourth with bytes values (pickle) and a fifth with strings longer than a line / with embedded line separators; "
+        f"{len(sub)} runs of the real command in a subprocess with the status output left on",
+        'evaluations': len(jobs) + len(sub), 'distinct_nontrivial': len(jobs) + len(sub), 'exhaustive': True,
         'rule': 'configuration -> graphtage.__main__.main completes without an exception other than SystemExit, exit status in {0,1}',
         'failures': fails, 'samples': [list(j) for j in jobs[100:103]],
     }]
